@@ -420,6 +420,7 @@ def main(argv):
             "client-side unsafe misuse of from_raw-style functions."
             ' Premises added later: the ArcUnion dispatch rules (R-TAG evaluated over sample words and payload alignments, Clone/Drop R-ARMS: a union owner is counted on the block of the Arc it was made from); R-PROT-MUT (nothing lets safe code change the recorded length a thin handle destroys by); R-PAYLOAD-DUP (a payload read out bitwise while its handle is still armed is destroyed twice if anything unwinds in between); compare-and-swap between constants is an increment event. Also decided on a 32-bit non-x86 target (configuration arm32) for cfg arms the host never compiles.'
             ' R-PAYLOAD-GAP (a payload destroyed in place through an armed handle is written again before anything can fail), R-REFCNT-PAIR (arc-swap glue: as_ptr and into_ptr agree).'
+            ' Round thirteen/fourteen: R-GUARD and R-PROVENANCE (the pointer of every handle literal does not derive from a shared reference to the block) as premises; R-WRITEBACK also for a duplicate rebuilt as a literal; R-RACY-ASSERT inside R-UNW (an assertion on a re-read count that a racing thread can falsify is a reachable exit).'
         ),
         rule_text="instances = (rule, API body or site); an instance is non-trivial when at least one ownership/count event lies on one of its paths",
         trusted_base=["rustc nightly MIR construction, drop elaboration and trait resolution", "std model table analysis/model.py", "user callbacks are themselves ownership-balanced"],
